@@ -321,7 +321,10 @@ func (d *Decoder) readUntypedList(tag byte) (interface{}, error) {
 			aryValue = reflect.Append(aryValue, v)
 			holder.change(aryValue)
 		} else {
-			ary[j] = it
+			// a nested list or a back-reference arrives in its internal carrier: store the Go value
+			if ary[j], err = EnsureInterface(it, nil); err != nil {
+				return nil, newCodecError("readUntypedList", err)
+			}
 		}
 	}
 
